@@ -33,6 +33,27 @@ class _ThreadingShim:
         return getattr(_real_threading, name)
 
 
+def _pump_asyncio(sim):
+    """Submitted from inside a running asyncio loop (loop.run_in_executor): the loop would sleep
+    in its selector while nothing drives the simulator. Keep a callback on the loop that lets
+    one simulator event happen per iteration until nothing is enabled any more."""
+    import asyncio
+    try:
+        loop = asyncio.get_running_loop()
+    except RuntimeError:
+        return
+    if getattr(loop, '_sim_pump_active', False):
+        return
+    loop._sim_pump_active = True
+
+    def pump():
+        if sim.step():
+            loop.call_soon(pump)
+        else:
+            loop._sim_pump_active = False
+    loop.call_soon(pump)
+
+
 def make_executor_classes(sim):
     class SimExecutor(cf.Executor):
         _use_pickle = True
@@ -54,6 +75,7 @@ def make_executor_classes(sim):
             fut.set_running_or_notify_cancel()
             self._pool.apply_async(fn, args, kwargs, callback=fut.set_result,
                                    error_callback=fut.set_exception)
+            _pump_asyncio(sim)
             return fut
 
         def map(self, fn, *iterables, timeout=None, chunksize=1):
